@@ -93,7 +93,7 @@ Proof.
       unfold ent_begin. rewrite Hb1. cbn [is_begin forallb].
       destruct (eout b); [congruence | reflexivity | reflexivity].
     + assert (Hbb : ent_begin b = true) by (unfold ent_begin; rewrite Hb1; reflexivity).
-      cbn [o_nest]. rewrite Hbb, (forallb_conn _ _ _ Hconn), Hb2.
+      rewrite Hbb, (forallb_conn _ _ _ Hconn), Hb2.
       assert (Hfin : forall ob, ob = tobs_of (mkThread sc (TDone r) iu) ->
                 finished_ok (S ++ [e]) ob = true /\ o_runs ob = 1 /\ o_ret ob <> OOpen /\ o_ret ob <> ONotStarted).
       { intros ob ->. unfold tobs_of. cbn [tst tsc tinuse].
@@ -189,7 +189,6 @@ Definition open_meaning (rest : list logent) (o : tobs) : Prop :=
    else Forall (fun x => ent_stmt x = true) rest).
 
 Definition thread_ok (sc : script) (tr : list logent) (o : tobs) : Prop :=
-  o_nest o = 0 /\
   match tr with
   | [] =>
     o_runs o = 0 /\ ret_nil (o_ret o) = false /\
@@ -250,8 +249,7 @@ Qed.
 
 Lemma prop_thread_meaning : forall sc tr o, prop_thread sc tr o = true -> thread_ok sc tr o.
 Proof.
-  intros sc tr o H. unfold prop_thread in H. apply andb_true_iff in H. destruct H as [Hn H].
-  apply Z.eqb_eq in Hn. split; [exact Hn|]. destruct tr as [|b rest].
+  intros sc tr o H. unfold prop_thread in H. unfold thread_ok. destruct tr as [|b rest].
   - apply andb_true_iff in H. destruct H as [H H3]. apply andb_true_iff in H. destruct H as [H1 H2].
     apply Z.eqb_eq in H1. apply negb_true_iff in H2. split; [exact H1|]. split; [exact H2|].
     destruct (o_ret o); try discriminate; try (left; reflexivity); right;
